@@ -1,6 +1,65 @@
 """C03: hashing does not panic (R-PANIC, under the property's own bound |scale| <= 1e5)."""
+import re
+from facts import cdef, cres, fields_of
 from rules.panic_clause import panic_clause
+from rules import table as TB
 from props import common
+
+
+def hashed_data(rep, F, rule='HASH-FIELDS'):
+    """necessary for agreement with ==: neither raw representation field is fed to the Hasher
+    (scale and trailing zeros differ between equal values), and the hashed datum is computed from
+    both fields"""
+    n = 0
+    for fn in common.hash_entries(F):
+        bodies = [fn] + [F.fns[c] for c in F.closures_of(fn.name)]
+        raw = []
+        hashed = 0
+        reads = set()
+        for g in bodies:
+            for bid, st in g.stmts():
+                for pl in ([st['rv'].get('pl')] if st['rv'].get('pl') else []) + [o['pl'] for o in ([st['rv'].get('op')] if st['rv'].get('op') else []) if o and o.get('k') in ('copy', 'move')]:
+                    for f in fields_of(pl):
+                        if f in ('int_val', 'scale'):
+                            reads.add(f)
+            for bid, t in g.calls():
+                d = cdef(t)
+                if re.search(r'hash::Hash::hash$|hash::Hasher::write', d) and t['args']:
+                    hashed += 1
+                    # resolve the hashed operand through borrows/copies to a place
+                    a = t['args'][0]
+                    l = a['pl']['l'] if a['k'] in ('copy', 'move') else None
+                    seen = set()
+                    while l is not None and l not in seen:
+                        seen.add(l)
+                        defs = [st for b, st in g.stmts() if st['lhs']['l'] == l and not st['lhs']['p']]
+                        if len(defs) != 1:
+                            break
+                        rv = defs[0]['rv']
+                        src = rv.get('pl') if rv['r'] == 'ref' else (rv['op']['pl'] if rv['r'] == 'use' and rv['op']['k'] in ('copy', 'move') else None)
+                        if src is None:
+                            break
+                        fl = fields_of(src)
+                        if src['l'] == 1 and fl and fl[-1] in ('int_val', 'scale'):
+                            raw.append(fl[-1])
+                            break
+                        l = src['l'] if not fl else None
+        n += 1
+        key = fn.key + ':no-raw-field'
+        if raw:
+            rep.violation(rule, key, 'the raw field(s) %s are fed to the Hasher: equal decimals with different scales or trailing zeros hash differently' % sorted(set(raw)), fn.where())
+        elif hashed == 0:
+            rep.undecided(rule, key, 'no Hash::hash / Hasher::write call found in the impl', fn.where())
+        else:
+            rep.ok(rule, key, '%d hashed datum/data: none is a raw representation field' % hashed, fn.where())
+        n += 1
+        key = fn.key + ':reads-both-fields'
+        if reads >= {'int_val', 'scale'}:
+            rep.ok(rule, key, 'the hashed datum is computed in a body that reads both int_val and scale', fn.where())
+        else:
+            rep.violation(rule, key, 'Hash::hash reads only %s: the value int_val*10^-scale cannot be determined from it' % sorted(reads), fn.where())
+    return n
+
 
 
 def run(ctx):
@@ -14,5 +73,7 @@ def run(ctx):
     rep.floor('Hash impl', len(ents), 1)
     names, n = panic_clause(ctx, F, ents, what='Hash::hash')
     rep.floor('may-panic sites enumerated', n, 3)
+    nh = hashed_data(rep, ctx.facts('default', 'rel'))
+    rep.floor('hash field rules', nh, 2)
     rep.assume('|scale| <= 10^5 (the property bounds scales because the hash materialises zeros)')
     rep.trust(common.TRUST_STD)
